@@ -186,6 +186,13 @@ def bezier_specs():
     return S
 
 
+def quad_specs():
+    import cyecca.models.quadrotor as q
+    m = q.derive_model()
+    return [fn_spec("quadrotor.f", m["f"]), fn_spec("quadrotor.g_accel", m["g_accel"]),
+            fn_spec("quadrotor.g_gyro", m["g_gyro"])]
+
+
 MODULES = {
     "Series": (series_specs, ()),
     "SO2": (so2_specs, ("Series",)),
@@ -197,4 +204,5 @@ MODULES = {
     "Products": (product_specs, ("Series",)),
     "Alloc": (rdd2_alloc_specs, ("Series",)),
     "Bezier": (bezier_specs, ("Series",)),
+    "Quad": (quad_specs, ("Series",)),
 }
